@@ -11,6 +11,8 @@ impl answer:  "out=<ns> ref=<ns> pts=<refPTS>"   (ns since the zero time.Time; a
 
 round 2 — integration sites, one whole scenario per op line (run in a testing/synctest bubble):
   aa <rate> <tok>…                       always-available stream (stream.Stream + SubStream, Opus, <rate> = 48000)
+  mf <rate0> <rate1> <tok>…              (round 3) stream with ReplaceNTP and one media offering two formats;
+                                         p<i>:<pts> writes a frame on format i; frame flag = format index
   hls <codec> <trackRate> <outRate> <abs> <tok>…   hls.ToStream with one track
      tokens: w<ns> sleep, j<ns> wall-clock jump, on / off publisher (aa), p<pts> frame with that timestamp
 impl answer:  "n=<k> <now>,<pts>,<ntp>,<flag> …"  one entry per frame handed to a stream reader
@@ -80,6 +82,25 @@ def stepAA (rate : Int) (impl : String) : DrvOut :=
     { model := fmtUnits ms,
       spec := obsVerdict rate (obsTol rate rate) (us.map fun u => (true, u.now, u.pts, u.ntp)) }
 
+/-- round 3: one media, two formats with their own clock rates; the frame flag is the format index.  Each
+format must have its own estimator, running at that format's rate. -/
+def stepMF (rates : List Int) (impl : String) : DrvOut :=
+  match parseUnits impl with
+  | none => { model := "-", spec := "FAIL unparsable implementation answer" }
+  | some us =>
+    let rateOf (u : U) : Int := (rates[u.flag.toNat?.getD 0]?).getD 1
+    let (_, ms) := us.foldl (fun (acc : List (String × St) × List U) u =>
+      let st := ((acc.1.find? (·.1 == u.flag)).map (·.2)).getD {}
+      let (st', o) := step (rateOf u) st u.now u.pts
+      ((u.flag, st') :: acc.1.filter (·.1 != u.flag), acc.2 ++ [{ u with ntp := o.getD 0 }])) ([], [])
+    let verdicts := (List.range rates.length).map fun i =>
+      let r := (rates[i]?).getD 1
+      obsVerdict r (obsTol r r) ((us.filter (·.flag == toString i)).map fun u => (true, u.now, u.pts, u.ntp))
+    let spec := match verdicts.find? (· != "ok") with
+      | some v => v
+      | none => "ok"
+    { model := fmtUnits ms, spec }
+
 def stepHLS (rt ro : Int) (toks : List String) (impl : String) : DrvOut :=
   match parseUnits impl with
   | none => { model := "-", spec := "FAIL unparsable implementation answer" }
@@ -101,6 +122,10 @@ def step' (d : D) (op impl : String) : D × DrvOut :=
     match rate.toInt? with
     | some r => (d, stepAA r impl)
     | none => (d, { model := "bad-op" })
+  | "mf" :: r0 :: r1 :: _ =>
+    match r0.toInt?, r1.toInt? with
+    | some r0, some r1 => (d, stepMF [r0, r1] impl)
+    | _, _ => (d, { model := "bad-op" })
   | "hls" :: _ :: rt :: ro :: _ :: toks =>
     match rt.toInt?, ro.toInt? with
     | some rt, some ro => (d, stepHLS rt ro toks impl)
